@@ -713,12 +713,30 @@ class Machine:
             perr = ma * B.err + mb * A.err + A.err * B.err
             if isinstance(a, float) or isinstance(b, float): s.stats['lin_mul'] += 1
             else: s.stats['nonlin_mul'] += 1; s.nl = True
-            return s.mk(A.t * B.t, min(c), max(c), A.ex + B.ex if both else None, perr)
+            lo_, hi_ = min(c), max(c)
+            if (a is b) or (isinstance(a, SymF) and isinstance(b, SymF) and A.t.eq(B.t)):
+                # a square: never negative (the IEEE product of a value with itself is >= 0 as well)
+                lo_ = Fraction(0) if A.lo <= 0 <= A.hi else min(A.lo * A.lo, A.hi * A.hi)
+                hi_ = max(A.lo * A.lo, A.hi * A.hi)
+            return s.mk(A.t * B.t, lo_, hi_, A.ex + B.ex if both else None, perr)
         if op == 'fdiv':
             if B.lo <= 0 <= B.hi:
                 # the divisor may be zero: split the path on its sign so that each side has a sound interval
                 if isinstance(b, float): raise ExecError('symbolic value divided by concrete zero')
-                if B.err != 0 or B.ex is None: raise ExecError('divisor interval contains 0 and divisor is not an exact dyadic value')
+                if B.err != 0 or B.ex is None:
+                    # inexact divisor whose interval contains 0 (the code has usually just tested it against 0):
+                    # sound only if it is provably at least tau away from zero on this path
+                    tau = max(Fraction(1, 10 ** 9), 8 * B.err)
+                    near = z3.And(B.t > rv(-tau), B.t < rv(tau))
+                    if s.check(near): raise ExecError('division by an inexact symbolic value that can be within %g of zero' % float(tau))
+                    s.add_pc(z3.Not(near)); s.stats['div_away_from_zero'] += 1
+                    if s.decide(SymB(B.t > 0)): B = SymF(B.t, max(B.lo, tau - B.err), B.hi, B.ex, B.err)
+                    else: B = SymF(B.t, B.lo, min(B.hi, -(tau - B.err)), B.ex, B.err)
+                    c = [A.lo / B.lo, A.lo / B.hi, A.hi / B.lo, A.hi / B.hi]
+                    mq = max(abs(x) for x in c); minb = min(abs(B.lo), abs(B.hi))
+                    perr = (A.err + mq * B.err) / minb
+                    s.stats['nonlin_div'] += 1; s.nl = True
+                    return s.mk(A.t / B.t, min(c), max(c), None, perr)
                 z = z3.RealVal(0)
                 if s.decide(SymB(B.t == z)): raise ExecError('floating-point division by a symbolic value that can be zero')
                 mn = Fraction(1, 1 << B.ex)          # smallest non-zero magnitude of k*2^-ex
@@ -1646,7 +1664,27 @@ def x_typeid_for(s, fr, ins, a):
 def x_sqrt(s, fr, ins, a):
     x = a[0]
     if isinstance(x, float): return math.sqrt(x) if x >= 0 else float('nan')
-    raise ExecError('sqrt of symbolic value not supported in prototype')
+    X = s.asF(x)
+    if X.lo < 0:
+        if X.hi < 0: return float('nan')
+        # the interval may dip below zero only through rounding slack of a sum of squares: ask the solver
+        if s.check(X.t < -X.err): raise ExecError('sqrt of a symbolic value that may be negative')
+        X = SymF(X.t, Fraction(0), X.hi, X.ex, X.err)
+    # fresh real r >= 0 with r*r == t (definitional constraint, part of the path condition); IEEE sqrt is correctly rounded
+    s.nfresh = getattr(s, 'nfresh', 0) + 1
+    r = z3.Real('sqrt%d_%d' % (len(s.decisions), s.nfresh))
+    s.add_pc(z3.And(r >= 0, r * r == X.t)); s.nl = True
+    s.stats['symbolic_sqrt'] += 1
+    def isq(fr, up_):
+        f = math.sqrt(float(fr)); g = Fraction(math.nextafter(f, INF if up_ else -INF)) if f > 0 or up_ else Fraction(0)
+        g = Fraction(math.nextafter(float(g), INF if up_ else -INF)) if g > 0 or up_ else Fraction(0)
+        return max(g, Fraction(0))
+    lo = isq(X.lo, False); hi = isq(X.hi, True)
+    if X.err == 0: perr = Fraction(0)
+    elif lo > 0: perr = X.err / lo
+    else: perr = isq(X.err, True)
+    if lo * lo > X.lo or hi * hi < X.hi: raise ExecError('internal: sqrt interval not sound')
+    return s.mk(r, lo, hi, None, perr)
 
 def cstring(s, p):
     if not isinstance(p, Ptr) or p.obj == 0: return '?'
